@@ -22,7 +22,7 @@ type ClCall struct {
 type ClInput struct {
 	Cond  bool     `json:"cond"`
 	Kind  string   `json:"kind"`
-	Opts  int      `json:"opts,omitempty"` // presentation options set on the receiver: 1 paren, 4 no-padding, 64 an encapsulation pair
+	Opts  int      `json:"opts,omitempty"` // presentation options set on the receiver: 1 paren, 2 case folding (Stacks), 4 no-padding, 64 an encapsulation pair
 	Calls []ClCall `json:"calls"`
 }
 
@@ -49,6 +49,9 @@ func runClosures(raw json.RawMessage) (res *Result, err error) {
 		} else {
 			s.SetParen(true)
 		}
+	}
+	if in.Opts&2 != 0 && !in.Cond {
+		s.SetFold(true) // changes what the kind word looks like, never which kind it is
 	}
 	if in.Opts&4 != 0 {
 		if in.Cond {
@@ -288,7 +291,7 @@ func genClosures(ctx *Ctx, emit func(any, string)) {
 				}
 				calls = append(calls, ClCall{Op: "set", Slot: sl, F: -1})
 				calls = append(calls, observers(cond)...)
-				for _, opts := range []int{0, 1, 5, 64} {
+				for _, opts := range []int{0, 1, 2, 5, 64} {
 					emit(ClInput{Cond: cond, Kind: k, Opts: opts, Calls: calls}, "exhaustive")
 				}
 			}
@@ -298,7 +301,7 @@ func genClosures(ctx *Ctx, emit func(any, string)) {
 	for i := 0; i < n; i++ {
 		r := ctx.Rng.Fork()
 		cond := r.Pct(35)
-		in := ClInput{Cond: cond, Opts: []int{0, 0, 1, 4, 5, 64, 65}[r.Intn(7)]}
+		in := ClInput{Cond: cond, Opts: []int{0, 0, 1, 2, 4, 5, 64, 65, 66}[r.Intn(9)]}
 		if !cond {
 			in.Kind = kinds[r.Intn(5)]
 		}
